@@ -96,6 +96,7 @@ func TestVerifC06(t *testing.T) {
 		for i := 0; i < nFr; i++ {
 			g.framingMutants(i == 0)
 		}
+		g.algFitOps()
 		g.hashListOps(envInt("VERIF_HASHLISTS", map[bool]int{true: 2000, false: 200}[thorough]))
 		g.newTxOps(envInt("VERIF_NEWTX", map[bool]int{true: 3000, false: 300}[thorough]))
 		nHist := envInt("VERIF_HISTORIES", map[bool]int{true: 400, false: 40}[thorough])
